@@ -316,7 +316,8 @@ def guarded(check):
 
 def call_impl(zero_d, label, f):
     try:
-        return f()
+        with np.errstate(all="ignore"):
+            return f()
     except Fail:
         raise
     except ZeroDivisionError:
@@ -497,7 +498,14 @@ def check_mn_body(case, res):
             return False
 
     compare("mn:loc", imp["loc"], mod["loc"], tol1, ex)
-    compare("mn:total_var", imp["total"], mod["total"], tol2, no)
+    try:
+        compare("mn:total_var", imp["total"], mod["total"], tol2, no)
+    except Fail as f:
+        if f.clause.endswith(":nan"):
+            # sqrt of a variance that cancellation made negative: the true variance is within rounding of zero
+            c = f.detail["cell"]
+            f.extra = dict(cancellation=bool(mod["total"][c] <= tol2[c]))
+        raise
     compare("mn:ale_var", imp["ale"], mod["ale"], tol2, no)
     # --- the property clause: total variance = aleatoric + epistemic, decided by ok_variance_split ---
     by_tol = {}
@@ -865,7 +873,13 @@ def gen_scalar(agg, count):
             case = dict(agg=agg, n=n, shape=shape, vals=vals, weights=ws, num="dyadic" if dyadic else "float",
                         mask=gen_mask(rng, n, cells) if rng.random() < 0.4 else None,
                         perm=rng.sample(range(n), n), uniform_c=rng.choice([1.0, 0.5, 3.0, 1.0 / n]))
-            if agg == "mn":
+            if agg == "mn" and not dyadic and j % 40 == 39:
+                # degenerate: the members agree and are (almost) certain - the mixture variance is ~ 0
+                case["vals"] = [[base * (1 + c) for c in range(cells)] for _ in range(n)]
+                tiny = rng.choice([0.0, 1e-9, 1e-12])
+                case["vals2"] = [[abs(base) * tiny for _ in range(cells)] for _ in range(n)]
+                case["num"] = "float-degenerate"
+            elif agg == "mn":
                 if dyadic:
                     case["vals2"] = [[rng.randint(0, 16) / 8.0 for _ in range(cells)] for _ in range(n)]
                 else:
